@@ -54,15 +54,12 @@ def get_mutators():
 
 def is_relevant(node):
     """Checks whether this theory might be relevant for this node."""
-    if node.has_ident():
-        if node.get_ident() in ['declare-const'] and len(node) > 2:
-            if nodes.contains(node[2], is_fp_sort) or nodes.contains(
-                    node[2], is_rm_sort):
-                return True
-        elif node.get_ident() in [
-                'declare-fun', 'define-fun', 'define-sort'
-        ] and len(node) > 3:
-            if nodes.contains(node[3], is_fp_sort) or nodes.contains(
-                    node[3], is_rm_sort):
-                return True
+    if node.has_ident() and node.get_ident() in [
+            'declare-const', 'declare-fun', 'define-fun', 'define-fun-rec',
+            'define-funs-rec', 'define-sort', 'declare-datatype',
+            'declare-datatypes'
+    ]:
+        # the sort may be the sort of the symbol, of an argument or of a field
+        return nodes.contains(node, is_fp_sort) or nodes.contains(
+            node, is_rm_sort)
     return False
